@@ -38,6 +38,23 @@ Transportation1dSorter::Transportation1dSorter(
   for (auto p : snkSort) {
     snkOrder.push_back(p.second);
   }
+
+  // Sources without supply are not part of the sorted problem: they are
+  // assigned to the closest sink with non-zero demand
+  idleSink.assign(u.size(), 0);
+  for (size_t i = 0; i < u.size(); ++i) {
+    if (s[i] > 0LL || snkSort.empty()) {
+      continue;
+    }
+    size_t k = std::lower_bound(snkSort.begin(), snkSort.end(),
+                                std::make_pair(u[i], 0LL)) -
+               snkSort.begin();
+    if (k == snkSort.size() ||
+        (k > 0 && u[i] - snkSort[k - 1].first <= snkSort[k].first - u[i])) {
+      --k;
+    }
+    idleSink[i] = snkSort[k].second;
+  }
 }
 
 Transportation1dSolver Transportation1dSorter::convert(
@@ -71,8 +88,8 @@ Transportation1dSorter::Solution Transportation1dSorter::convertSolutionBack(
 
 std::vector<int> Transportation1dSorter::convertAssignmentBack(
     const std::vector<int> &a) const {
-  std::vector<int> ret;
-  ret.resize(a.size());
+  // One entry per source of the original problem, not per sorted source
+  std::vector<int> ret = idleSink;
   for (size_t i = 0; i < a.size(); ++i) {
     ret[srcOrder[i]] = snkOrder[a[i]];
   }
